@@ -148,18 +148,34 @@ impl Engine for C19 {
         let step = Step { op: Op::LinkTo(c.link.clone()), fl: c.fl };
         let what = format!("{:?} [{:?}] target of {} bytes, cwd depth {}", c.link, c.fl, data.len(), c.cwd_depth);
         let (out, t0, t1) = if c.link.relative {
-            // a driver process with its own working directory
+            // a driver process with its own working directory; in the same process, before the
+            // link under test: another relative link made from a different working directory
+            // (anything the implementation remembers about the working directory is stale by then)
             let mut cwd = env.scratch.root.join("cwd");
             for d in 0..c.cwd_depth {
                 cwd = cwd.join(format!("d{d}"));
             }
             std::fs::create_dir_all(&cwd).map_err(|e| format!("INFRA: {e}"))?;
-            let prog = Program { keys: keys.clone(), blobs: blobs.clone(), steps: vec![step.clone()] };
+            let warm = LinkSpec { key: Some(1), blob: 1, target: 1, relative: true, algo: Algo::Sha256, oneshot: c.cwd_depth % 2 == 0, pre_reads: vec![], declare: Declare::Exact, integ: IntegDecl::None };
+            let two_links = c.cwd_depth % 2 == 1 || c.post == Post::None;
+            let steps = if two_links {
+                vec![Step { op: Op::LinkTo(warm.clone()), fl: c.fl }, Step { op: Op::Chdir { dir: 7 + c.cwd_depth as usize }, fl: Fl::Sync }, step.clone()]
+            } else {
+                vec![step.clone()]
+            };
+            let prog = Program { keys: keys.clone(), blobs: blobs.clone(), steps };
             let pf = env.scratch.root.join("prog.json");
             std::fs::write(&pf, serde_json::to_string(&prog).unwrap()).map_err(|e| format!("INFRA: {e}"))?;
             let of = env.scratch.root.join("out.jsonl");
-            let v = run_fresh(&env.scratch.cache, &env.scratch.scratch, &pf, 0, 1, &of, Some(&cwd))?;
-            let (_, o, a, b) = v.into_iter().next().ok_or("INFRA: no driver output")?;
+            let n = prog.steps.len();
+            let v = run_fresh(&env.scratch.cache, &env.scratch.scratch, &pf, 0, n, &of, Some(&cwd))?;
+            if two_links {
+                // the first link (key "unrelated" re-linked to its own target file) is judged too
+                let (_, o, a, b) = v.first().cloned().ok_or("INFRA: no driver output")?;
+                model.step(&ctx, &prog.steps[0], &o, a, b).map_err(|e| format!("{what}: earlier relative link in the same process: {e}"))?;
+                st.class("two_relative_links_with_chdir_between");
+            }
+            let (_, o, a, b) = v.into_iter().last().ok_or("INFRA: no driver output")?;
             (o, a, b)
         } else {
             let r = run_step(&ctx, &step);
